@@ -852,7 +852,14 @@ def xtlv(prop, tier, seed, t0):
     return responder_check(prop, tier, seed, t0, {"XTLV"}, campaigns.campaign_xtlv(seed, tier))
 
 
-REGISTRY = {"XTLV": xtlv, "XIMPL": ximpl, "XEMB": xemb, "XGLUE": xglue, "XENUM": xenum, "C17": c17, "C11": c11, "C12": c12, "C13": c13, "C14": c14, "C15": c15, "C16": c16, "C01": c01, "C02": c02, "C03": c03, "C04": c04, "C05": c05, "C06": c06, "C07": c07, "C08": c08, "C09": c09, "C10": c10, "C18": c18, "C19": c19}
+def xtick(prop, tier, seed, t0):
+    """extension: automata_tick as a deterministic function, every field it leaves behind compared"""
+    import acampaigns
+    scs = acampaigns.campaign_c12(seed, tier) + acampaigns.campaign_c13(seed, tier)[-24:] + acampaigns.campaign_c14(seed, tier)[-30:]
+    return automata_check(prop, tier, seed, t0, {"XTICK"}, scs)
+
+
+REGISTRY = {"XTICK": xtick, "XTLV": xtlv, "XIMPL": ximpl, "XEMB": xemb, "XGLUE": xglue, "XENUM": xenum, "C17": c17, "C11": c11, "C12": c12, "C13": c13, "C14": c14, "C15": c15, "C16": c16, "C01": c01, "C02": c02, "C03": c03, "C04": c04, "C05": c05, "C06": c06, "C07": c07, "C08": c08, "C09": c09, "C10": c10, "C18": c18, "C19": c19}
 
 
 # =========================================================================== replay
